@@ -277,4 +277,12 @@ func (d *c23Differ) bytes(name string, w, g []byte) {
 	}
 	d.field = name
 	d.detail = fmt.Sprintf("want len %d got len %d", len(w), len(g))
+	if len(w) == len(g) {
+		for i := range w {
+			if w[i] != g[i] {
+				d.detail += fmt.Sprintf(", first difference at byte %d: want %#02x got %#02x", i, w[i], g[i])
+				break
+			}
+		}
+	}
 }
